@@ -52,6 +52,7 @@ type Unit struct {
 	models   map[string]*Model
 	pureSyms map[string]bool
 	addrTaken map[*ssa.Function]bool
+	callers   map[*ssa.Function][]*ssa.Function
 	intrinsic map[*ssa.Function]*label
 	litNames  map[token.Pos]string // function literals in package-level var initialisers: stable names
 }
@@ -440,6 +441,9 @@ func (u *Unit) computeAddrTaken() {
 			}
 			for _, b := range fn.Blocks {
 				for _, in := range b.Instrs {
+					if _, dbg := in.(*ssa.DebugRef); dbg {
+						continue // debug information (GlobalDebug), not a use of the function value
+					}
 					var ops []*ssa.Value
 					for _, op := range in.Operands(ops) {
 						if op == nil || *op == nil {
@@ -1212,4 +1216,60 @@ func (u *Unit) mapNext(fx *FX, st *State, m VMap, x *ssa.Next, ok T, k, v Val) {
 			fx.assume(not(ok), eq(li.countHdr, num(int64(len(cm.keys)))))
 		}
 	}
+}
+
+// coveredByInlining: fn is a top-level unexported function without contract, loop-free and small (so every call to it
+// is executed in place by the caller's verification), never used as a value, and each of its callers is a function
+// that is verified on its own account (it has a contract or is exported).
+func (u *Unit) coveredByInlining(fn *ssa.Function) bool {
+	if fn.Pkg == nil || fn.Parent() != nil || fn.Signature.Recv() != nil || ast.IsExported(fn.Name()) || fn.Name() == "init" || fn.Name() == "main" {
+		return false
+	}
+	if u.contractOf(fn) != nil || u.addrTaken[fn] || len(fn.Blocks) > 40 || u.modelFor(fn) != nil {
+		return false // (a function with an assumed model is not inlined at its call sites)
+	}
+	for _, b := range fn.Blocks {
+		for _, s := range b.Succs {
+			if s.Dominates(b) {
+				return false
+			}
+		}
+		for _, in := range b.Instrs {
+			switch in.(type) {
+			case *ssa.Go, *ssa.Select, *ssa.Send:
+				return false
+			}
+		}
+	}
+	if u.callers == nil {
+		u.callers = map[*ssa.Function][]*ssa.Function{}
+		for f := range ssautil.AllFunctions(u.Prog) {
+			if !u.internal(f) {
+				continue
+			}
+			for _, b := range f.Blocks {
+				for _, in := range b.Instrs {
+					if ci, ok := in.(ssa.CallInstruction); ok {
+						if cal := ci.Common().StaticCallee(); cal != nil && u.internal(cal) {
+							u.callers[cal] = append(u.callers[cal], f)
+						}
+					}
+				}
+			}
+		}
+	}
+	cs := u.callers[fn]
+	if len(cs) == 0 {
+		return false
+	}
+	for _, c := range cs {
+		root := c
+		for root.Parent() != nil {
+			root = root.Parent()
+		}
+		if u.contractOf(c) == nil && u.contractOf(root) == nil && !ast.IsExported(root.Name()) {
+			return false
+		}
+	}
+	return true
 }
